@@ -348,6 +348,12 @@ def family_f32(ctx, scale):
     for l in HARD32:
         yield 'f32-hard', l
         yield 'f32-hard', b'-' + l
+    # integer literals around f32 midpoints in [2^63, 2^64): the negative ones leave parse_number as -(u64 as f64) (not through lexical)
+    for i in range(150 if ctx.tier == 'quick' else 3000):
+        M = (1 << 23) + (rng.randrange(1 << 23) if i else 0)
+        n = (2 * M + 1) * (1 << 39) + rng.choice([1, -1]) * rng.choice([1, 2, 1023, 1024, 1025, rng.randrange(1, 2000)])
+        yield 'f32-negint-u64', ('-%d' % n).encode()
+        yield 'f32-posint-u64', ('%d' % n).encode()
     for l in ZEROS:
         yield 'f32-zero', l
     for he in HUGE_EXP:
@@ -442,6 +448,10 @@ def judge_lits(ctx, cfg, inputs, aux=None):
             what = 'crash' if (a == 'PANIC' or a.startswith('CRASH')) else 'sources-disagree' if a.startswith('SRC-DISAGREE') else \
                    'not-correctly-rounded-' + target if (a.startswith('ok') and e.startswith('ok')) else \
                    'finite-literal-rejected' if e.startswith('ok') else 'out-of-range-literal-accepted' if a.startswith('ok') else 'wrong-error'
+            pp = lit_parts(d)
+            if what == 'not-correctly-rounded-f32' and pp[0] and pp[3] and 2 ** 63 < pp[1] < 2 ** 64:
+                # de.rs parse_number: -(u64 as f64), then cast to f32 by the visitor: two roundings (finding C07-F1)
+                what = 'not-correctly-rounded-f32-negative-integer-beyond-i64'
             v.append({'what': what, 'cfg': cfg, 'input': hx(d), 'literal': d[:200].decode('latin-1'),
                       'expected': 'correctly rounded %s (exact big-integer oracle): %s' % (target, e), 'actual': a,
                       'op': 'from_str/from_slice/from_reader::<%s>, in a Vec, in a Value' % target, 'aux': {'target': target}})
